@@ -205,6 +205,7 @@ def run(ctx, drv):
             check_cmaes(ctx, rng, Cm if kind == "spd" else gen_sym(rng, n, "spd"))
         ctx.case(reqs[-1], n >= 3, {"n": n, "kind": kind, "C": Cm[:3]} if len(ctx.samples) < 4 and n == 3 else None)
         ctx.count("eigen_" + kind)
+    audit_cmaes_runs(ctx, rng)
     if drv.ok:
         out = drv.batch(reqs)
         for g, fn in zip(out, post):
@@ -229,16 +230,20 @@ def check_cmaes(ctx, rng, Cm):
     p.types[:] = Real(0, 1)
     alg = A.CMAES(p, offspring_size=4)
 
+    # CMA-ES maintains only the lower triangle of C (the upper one keeps whatever it held: the zeros of the initial identity);
+    # half of the cases therefore present C the way the algorithm does
+    lower_only = rng.random() < 0.5
+
     def go():
         import random
         random.seed(1)
         alg.initialize() if hasattr(alg, "initialize") else None
-        alg.C = [list(r) for r in Cm]
+        alg.C = [[Cm[i][j] if (j <= i or not lower_only) else (0.0 if i != j else 1.0) for j in range(n)] for i in range(n)]
         alg.iteration = alg.diagonal_iterations + 1
         alg.eigendecomposition()
         return list(alg.diag_D), [list(r) for r in alg.B]
     r = call(go)
-    inp = {"C": Cm, "via": "CMAES.eigendecomposition"}
+    inp = {"C": Cm, "via": "CMAES.eigendecomposition", "stored": "lower triangle only (upper stale)" if lower_only else "full symmetric"}
     if isinstance(r, str):
         ctx.fail("eigendecomposition-raises", inp, r, "principal axes", "algorithms.CMAES.eigendecomposition")
         ctx.failures[-1]["input_class"] = f"cmaes:{r}"
@@ -250,6 +255,41 @@ def check_cmaes(ctx, rng, Cm):
         ctx.fail("cmaes-axes-not-principal", inp, [rec, orth], "Q diag(d) Q^T = C, Q orthonormal", "algorithms.CMAES.eigendecomposition")
         ctx.failures[-1]["input_class"] = "dim>=4" if n >= 4 else "dim<4"
     ctx.count("cmaes_eigendecompositions")
+
+
+def audit_cmaes_runs(ctx, rng):
+    """real CMA-ES runs: after every eigen-update the axes must be the principal axes of the covariance the algorithm holds
+    (its lower triangle, symmetrically completed)"""
+    from platypus import Problem, Real
+    import random
+    for nv in ([2, 5] if ctx.quick() else [2, 3, 5, 8, 12]):
+        p = Problem(nv, 1, function=lambda x: [sum((v - 0.3 * (i + 1) / len(x)) ** 2 * (1 + 9 * i) for i, v in enumerate(x)) + 0.5 * x[0] * x[-1]])
+        p.types[:] = Real(-1, 2)
+        alg = A.CMAES(p, offspring_size=8, diagonal_iterations=rng.choice([0, 0, 3]))
+        audits = []
+        orig = alg.eigendecomposition
+
+        def wrapped(alg=alg, orig=orig, audits=audits):
+            orig()
+            if alg.iteration > alg.diagonal_iterations:
+                n = alg.problem.nvars
+                Csym = [[alg.C[max(i, j)][min(i, j)] for j in range(n)] for i in range(n)]
+                audits.append((Csym, [x * x for x in alg.diag_D], [list(r) for r in alg.B]))
+        alg.eigendecomposition = wrapped
+        random.seed(rng.randrange(2 ** 31))
+        r = call(lambda: alg.run(8 * 25))
+        if isinstance(r, str):
+            ctx.fail("cmaes-run-raises", {"nvars": nv}, r, "a run", "algorithms.CMAES")
+            continue
+        for Csym, d, B in audits:
+            rec, orth, asc = eig_residuals(Csym, d, B)
+            if rec > 1e-8 or orth > 1e-9:
+                ctx.fail("cmaes-axes-not-principal", {"C": Csym, "via": "eigen-update inside a real CMAES run", "nvars": nv}, [rec, orth],
+                         "B diag(D^2) B^T = C (lower triangle, symmetrically completed), B orthonormal", "algorithms.CMAES.eigendecomposition")
+                ctx.failures[-1]["input_class"] = "in-run"
+                break
+            ctx.case(("cmaes-run", nv, repr(d[:2])), nv >= 3)
+        ctx.count("cmaes_in_run_eigen_updates", len(audits))
 
 
 def solve_exact(Amat, b):
